@@ -81,6 +81,21 @@ func Serve(targets []Target, memLimitMB int) {
 		case <-done:
 		case <-time.After(time.Duration(budgetMS) * time.Millisecond):
 			status = byte(Hang)
+			// One huge allocation sized by a length field that is still being
+			// zeroed or walked is a memory question, not a hang: the mapped
+			// memory is large and no longer grows. A heap that keeps growing
+			// is an unbounded loop.
+			var m1, m2 runtime.MemStats
+			runtime.ReadMemStats(&m1)
+			select {
+			case <-done:
+				status = byte(OK)
+			case <-time.After(1500 * time.Millisecond):
+				runtime.ReadMemStats(&m2)
+				if m1.Sys > 1<<30 && m2.Sys == m1.Sys {
+					status = byte(Oversize)
+				}
+			}
 			buf := make([]byte, 1<<16)
 			buf = buf[:stackAll(buf)]
 			msg = string(buf)
